@@ -25,7 +25,7 @@ func (C16) Plan(tier string) core.Plan {
 
 func (C16) Info() core.Info {
 	return core.Info{
-		Rule:        "exact-match worlds over distinct parameter types (so the designated option of every parameter is unique) whose option list is transformed by the PRNG: random casing of names on both sides, duplicates of a key at random distance, a split into NewFunc defaults and Call options with overlapping keys, interleaved nil values, options with the same name/type under another subtype (distinct keys), and sometimes a second Func of the same signature whose defaults are a sub-slice (prefix) of the first one's defaults slice and which is called first; several type-only values and nils bundled into one Typed(...) option; history = the call, the same call with the distinct-key groups permuted (reusing the same option values), the call again without the options that merely overrode a default (the default must apply again), and the call with a nil option inserted. Each under 6-16 seeded iteration-order schedules (the option list lands in four Go maps that are then ranged). Oracle: each parameter's token is the one of the option the rules designate (last occurrence in defaults-then-call order); the permuted call delivers the same tokens; the nil-option call returns an error and runs nothing. Non-trivial: some transformation applied; distinct = distinct (world shape, event-log hash)",
+		Rule:        "exact-match worlds over distinct parameter types (so the designated option of every parameter is unique) whose option list is transformed by the PRNG: random casing of names on both sides, duplicates of a key at random distance, a split into NewFunc defaults and Call options with overlapping keys, interleaved nil values, options with the same name/type under another subtype (distinct keys), and sometimes a second Func of the same signature whose defaults are a sub-slice (prefix) of the first one's defaults slice and which is called first; several type-only values and nils bundled into one Typed(...) option; history = the call, the same call with the distinct-key groups permuted (reusing the same option values), the call again without the options that merely overrode a default (the default must apply again), and the call with a nil option inserted. Each under 6-16 seeded iteration-order schedules (the option list lands in four Go maps that are then ranged). Oracle: each parameter's token is the one of the option the rules designate (last occurrence in defaults-then-call order); the permuted call delivers the same tokens; the nil-option call returns an error and runs nothing; names include one whose upper-case letters are not ASCII; a refused construction is a violation. Non-trivial: some transformation applied; distinct = distinct (world shape, event-log hash)",
 		Assumptions: []string{"parameter types are pairwise distinct within a target, which makes the designated option of a type-only parameter unique"},
 		Probes:      []string{"c16_calls", "c16_duplicate_keys", "c16_default_overridden", "c16_default_used", "c16_mixed_case", "c16_nil_value_present", "c16_nil_option_calls", "c16_permuted_calls", "c16_other_subtype_key", "c16_prefix_sharing_func_called", "c16_typed_multi_option", "c16_default_applies_after_override", "s1_nonidentity_perms"},
 		Real:        realComponents,
